@@ -110,3 +110,78 @@ def site(func, node=None):
 
 def key(func, text):
     return f'{func.qual}|{text}'
+
+
+UNIT_FIELDS = {'max_length': 'length_units', 'length': 'length_units'}
+
+
+def units_rule(ctx, rule, funcs, why):
+    """a quantity that is configured together with a unit entry (length / max_length with length_units) is only ever used
+    through convert_length(value, <the same record's length_units>)"""
+    n = 0
+    for f in funcs:
+        for node in ast.walk(f.node):
+            fld = base = None
+            if isinstance(node, ast.Attribute) and isinstance(node.ctx, ast.Load) and node.attr in UNIT_FIELDS and node.attr != 'length':
+                fld, base = node.attr, ast.unparse(node.value)
+            elif isinstance(node, ast.Subscript) and isinstance(node.ctx, ast.Load) and isinstance(node.slice, ast.Constant) and \
+                    node.slice.value in UNIT_FIELDS:
+                base = ast.unparse(node.value)
+                # only records that carry the unit entry as well
+                if not any(isinstance(x, ast.Subscript) and isinstance(x.slice, ast.Constant) and x.slice.value == UNIT_FIELDS[node.slice.value]
+                           and ast.unparse(x.value) == base for x in ast.walk(f.node)):
+                    continue
+                fld = node.slice.value
+            if fld is None:
+                continue
+            n += 1
+            par = getattr(node, '_parent', None)
+            ok = isinstance(par, ast.Call) and isinstance(par.func, ast.Name) and par.func.id == 'convert_length' and len(par.args) == 2 and \
+                par.args[0] is node and ast.unparse(par.args[1]) in (f'{base}.{UNIT_FIELDS[fld]}', f"{base}['{UNIT_FIELDS[fld]}']")
+            ctx.check(rule, f'{site(f, node)} {fld}', ok, f'{f.qual}|units|{fld}',
+                      f'{ast.unparse(node)} is used without convert_length(.., {base} {UNIT_FIELDS[fld]}): {why}',
+                      ast.unparse(par)[:120] if par is not None else '')
+    return n
+
+
+# abscissae of numpy.interp that are ascending by a precondition on user data, confirmed by reading (one reason each)
+INTERP_PRECONDITIONS = {
+    'self.params.raman_coefficient.frequency_offset': 'Raman gain profile: offsets are documented (and shipped) in increasing order',
+    'spectral_info.frequency[cut_indices]': 'the channels selected for the NLI computation are listed in increasing order (documented)',
+}
+
+
+def ascending_source(f, e, depth=3):
+    """why expression e (the xp argument of numpy.interp) is known to be ascending, or None"""
+    from ..dataflow import local_defs
+    t = ast.unparse(e)
+    if t in INTERP_PRECONDITIONS:
+        return 'precondition: ' + INTERP_PRECONDITIONS[t]
+    if isinstance(e, ast.Attribute) and e.attr == 'frequency' and isinstance(e.value, ast.Name) and 'spectral_info' in e.value.id:
+        return 'SpectralInformation.frequency is sorted at construction (C01 R2)'
+    if isinstance(e, ast.Subscript) and isinstance(e.slice, ast.Constant) and e.slice.value == 'up_to_boundary':
+        return 'penalty boundaries are sorted at load (C13 R6)'
+    if isinstance(e, ast.Call) and isinstance(e.func, ast.Name) and e.func.id in ('arrange_frequencies', 'arange', 'linspace', 'sorted', 'sort'):
+        return f'{e.func.id}(..) is ascending by construction'
+    if isinstance(e, ast.Name) and depth > 0:
+        ds = [v for _, v in local_defs(f.node).get(e.id, []) if isinstance(v, ast.AST)]
+        why = [ascending_source(f, v, depth - 1) for v in ds]
+        if ds and all(why):
+            return why[0]
+    return None
+
+
+def interp_rule(ctx, rule, funcs, why):
+    """numpy.interp silently returns garbage on a non-increasing abscissa: every call site's xp is ascending by construction
+    (sorted spectrum, arrange_frequencies, tables sorted at load) or by a recorded precondition on user data"""
+    n = 0
+    for f in funcs:
+        for c in calls_to(f, {'interp'}):
+            if len(c.args) < 3:
+                continue
+            n += 1
+            src = ascending_source(f, c.args[1])
+            ctx.check(rule, f'{site(f, c)} abscissa {ast.unparse(c.args[1])[:50]}', src is not None, f'{f.qual}|interp|{ast.unparse(c.args[1])[:60]}',
+                      f'numpy.interp over an abscissa that is not known to be ascending ({ast.unparse(c.args[1])[:60]}): {why}',
+                      src or ast.unparse(c)[:120])
+    return n
